@@ -134,3 +134,26 @@ def ModalSt.exec (ms : ModalSt) (s : Stmt) : ModalSt :=
 def ModalSt.run (ms : ModalSt) (ss : List Stmt) : ModalSt := ss.foldl ModalSt.exec ms
 
 end GscribModel.Builder
+
+namespace GscribModel.Builder
+
+/-! ## extruder axis (C20): M82/M83 are independent of G90/G91; `G92 E…` resets the position -/
+structure EMachine where
+  epos : Rat := 0
+  erel : Bool := false
+deriving DecidableEq, Repr
+
+def EMachine.exec (em : EMachine) (s : Stmt) : EMachine :=
+  match s.codes with
+  | [.M82] => { em with erel := false }
+  | [.M83] => { em with erel := true }
+  | [.G92] => (match lookupQ s.words "E" with | some e => { em with epos := e } | none => em)
+  | [.G0] | [.G1] =>
+      (match lookupQ s.words "E" with
+       | some e => if em.erel then { em with epos := em.epos + e } else { em with epos := e }
+       | none => em)
+  | _ => em
+
+def EMachine.run (em : EMachine) (ss : List Stmt) : EMachine := ss.foldl EMachine.exec em
+
+end GscribModel.Builder
